@@ -274,7 +274,7 @@ def history(i: int, j: int) -> bool:
 
 def other_engines(i: int, e: int) -> bool:
     """
-    pre: 0 <= i < len(POOL) and 0 <= e < len(OTHER_FACTORIES)
+    pre: 0 <= i < len(POOL) and 0 <= e < len(OTHER_FACTORIES) and (H.P('efix') is None or e == H.P('efix'))
     post: _
     """
     # the tree depends on the text and on THIS engine's operator table only: engines created later from other factories
@@ -376,8 +376,9 @@ def conditions(tier, seed):
                         'bounds': 'at fetch k in [0,8] every attribute of the engine/lexer/parser/rule objects/yaql modules '
                                   'that a parse was observed to write is replaced by the value left by the parse of pool '
                                   'text h (symbolic)'})
-    out.append({'name': 'other_engines', 'func': 'other_engines', 'timeout': 300, 'param': {'pool': 'q'},
-                'bounds': 'every pool text x 5 other factories (legacy, custom operator, re-aliased = and !=, delegates, no keyword '
+    for ef in range(5):
+      out.append({'name': 'other_engines[%d]' % ef, 'func': 'other_engines', 'timeout': 300, 'param': {'pool': 'q', 'efix': ef},
+                'bounds': 'every pool text x 1 of 5 other factories (legacy, custom operator, re-aliased = and !=, delegates, no keyword '
                           'operator) created after the engine under test (selectors; each path one concrete history)'})
     out.append({'name': 'eval_cache', 'func': 'eval_cache', 'timeout': 200, 'param': {'pool': 'q'},
                 'bounds': 'yaql.eval on ordered pairs of pool texts (selectors; each path one concrete history)'})
